@@ -19,6 +19,17 @@ CONSTANTS WBad, WEnd
 Witness == (bad = WBad /\ end = WEnd) => (PrintT("WITNESS " \o ToJson([prog |-> prog, evs |-> evs, end |-> end, bad |-> bad])) /\ FALSE)
 WitnessBad == (bad = WBad) => (PrintT("WITNESS " \o ToJson([prog |-> prog, evs |-> evs, end |-> end, bad |-> bad])) /\ FALSE)
 
+\* Compact rendering of histories for printing
+EvStr(e) == e.ev \o "|" \o ToString(e.f) \o "|" \o ToString(e.t) \o "|" \o ToString(e.c) \o "|" \o e.res \o "|" \o e.v \o "|" \o ToString(e.n)
+OpStr(o) == o.k \o ToString(o.c)
+CompactEvs(es) == [i \in 1 .. Len(es) |-> EvStr(es[i])]
+CompactProg(pr) == [f \in DOMAIN pr |-> [i \in 1 .. Len(pr[f]) |-> OpStr(pr[f][i])]]
+
+\* Transition coverage: an action constraint TLC evaluates on EVERY transition (also those into states it
+\* has already seen); it prints the representative history of the source state extended by this step, so the
+\* set of printed behaviours exercises every (state, operation) pair of the model.  Always TRUE.
+EmitStep == PrintT("STEP " \o ToJson([prog |-> CompactProg(prog'), evs |-> CompactEvs(evs'), end |-> end', bad |-> bad']))
+
 \* Print one behaviour (program + predicted events) when it has ended; used with -simulate
 Emit == end # "run" => PrintT("BEHAVIOUR " \o ToJson([prog |-> prog, evs |-> evs, end |-> end, bad |-> bad]))
 =============================================================================
